@@ -47,6 +47,8 @@ pub fn start_query_timer(milliseconds: u64) -> ThreadTimer {
     let generation = new_generation();
     let timer = ThreadTimer::new();
     timer.start(Duration::from_millis(milliseconds), move || {
+        #[cfg(suiron_verif)]
+        verif_probe::probe(verif_probe::STOP_QUERY, generation);
         // Stop the query this timer was started for, and no other.
         let _ = SUIRON_STOP_QUERY.compare_exchange(
             generation << 1, (generation << 1) | 1,
